@@ -111,6 +111,11 @@ func (e *Engine) funcsForProperty(prop string) []*ssa.Function {
 					match = true
 				}
 			}
+			for _, cl := range ct.AtCalls {
+				if hasProp(cl.Tags, prop) {
+					match = true
+				}
+			}
 			for _, cl := range ct.LoopInvs {
 				if hasProp(cl.Tags, prop) {
 					match = true
